@@ -1,6 +1,7 @@
 package medialib
 
 import (
+	"github.com/cnotch/ipchub/av/format/flv"
 	"fmt"
 	"runtime"
 	"strings"
@@ -529,6 +530,66 @@ func ScStapParamsetsIdr(hevc bool) Outcome {
 	d := r.Delivered()
 	if fmt.Sprint(d) != "[1 2 3]" {
 		return Outcome{Name: name, Fail: fmt.Sprintf("joiner after [STAP(SPS,PPS,IDR), P, P] received %v, expected [1 2 3]: the aggregation packet is cached as 'the SPS packet', the key frame is not recognised and the GOP cache never starts", d)}
+	}
+	return Outcome{Name: name}
+}
+
+// ScPanicBadClose: a consumer panics in Consume AND its Close misbehaves (panics, or blocks for good).
+// Property (C04): it is nevertheless detached from the stream (no longer counted, no longer fed),
+// and the publisher and the other consumer are unaffected.
+func ScPanicBadClose(closeMode string, flvTable bool, hevc bool) Outcome {
+	name := "panic-with-close-" + closeMode
+	if flvTable {
+		name += "-flv"
+	}
+	w := NewWorld(hevc, true)
+	defer w.S.Close()
+	good := w.NewRec()
+	w.Join(good, false)
+	bad := w.NewRec()
+	bad.PanicAt = 1
+	bad.CloseMode = closeMode
+	bad.CloseGate = make(chan struct{})
+	bad.closeIn = make(chan struct{})
+	defer close(bad.CloseGate)
+	if flvTable {
+		bad.Flv = true
+		bad.CID = w.S.StartConsumeNoGopCache(bad, media.FLVPacket, "verif")
+		w.S.WriteFlvTag(&flv.Tag{TagType: flv.TagTypeVideo, Timestamp: 1, Data: []byte{0x17, 1, 0, 0, 0, 9}})
+	} else {
+		w.Join(bad, false)
+	}
+	pubDone := make(chan struct{})
+	go func() {
+		defer close(pubDone)
+		for i := 0; i < 40; i++ {
+			w.Publish(KNonKey, 3)
+		}
+	}()
+	select {
+	case <-pubDone:
+	case <-time.After(60 * time.Second):
+		return Outcome{Name: name, Fail: "the publisher is blocked by a consumer that panicked", Detail: w.Observe()}
+	}
+	select {
+	case <-bad.closeIn:
+	case <-time.After(60 * time.Second):
+		return Outcome{Name: name, Fail: "the panicking consumer is never closed", Detail: w.Observe()}
+	}
+	detached := func() bool {
+		rtpT, flvT, _, _ := w.S.VerifTables()
+		for _, c := range append(rtpT, flvT...) {
+			if c.CID == bad.CID {
+				return false
+			}
+		}
+		return true
+	}
+	if !Eventually(30*time.Second, detached) {
+		return Outcome{Name: name, Fail: fmt.Sprintf("a consumer that panicked (and whose Close %ss) is still attached: consumer count %d", closeMode, w.S.ConsumerCount()), Detail: w.Observe()}
+	}
+	if !Eventually(30*time.Second, func() bool { return len(good.Delivered()) == 40 }) {
+		return Outcome{Name: name, Fail: fmt.Sprintf("the other consumer received %d of 40 packets", len(good.Delivered())), Detail: w.Observe()}
 	}
 	return Outcome{Name: name}
 }
